@@ -226,11 +226,22 @@ def run_case(rec, prolog, epilog):
             viol.append(("save-slot-below-sp", "prolog stores %s at entry_sp%+d, below the body SP entry_sp%+d" % (r, off, sp_body)))
     # --- SP alignment promise (entry SP is 16-byte aligned by AAPCS64; nothing more may be assumed)
     fa = rec["final_align"]
-    if rec["promise"]:
-        bad = [e for e in range(0, max(fa, 16), 16) if (e + sp_body) % fa]
+    # (a) the basic AAPCS64 rule, whatever the frame promises: SP is a multiple of 16 whenever it is used as a base register - the epilog's
+    #     own loads go through it. The emitted sub/pre-index amounts decide this, not FuncFrame's arithmetic. Separate kind, so that
+    #     the known finding about alignments ABOVE 16 (below) cannot swallow it.
+    rec["_sp16_checked"] = bool(rec["promise"] or m.stores or rec["stack_adj"])
+    rec["_sp_moved"] = sp_body != 0
+    if sp_body % 16 and (rec["promise"] or m.stores or rec["stack_adj"]):
+        viol.append(("sp-not-16-aligned", "SP inside the body = entry_sp%+d is not a multiple of 16 (AAPCS64: SP mod 16 = 0 whenever it is "
+                     "used to access memory)" % sp_body))
+    # (b) the promised alignment above 16 (needs dynamic alignment, as the entry SP is only 16-byte aligned)
+    elif rec["promise"] and fa > 16:
+        bad = [e for e in range(0, fa, 16) if (e + sp_body) % fa]
         if bad:
             viol.append(("sp-misaligned:align%d" % fa, "SP inside the body = entry_sp%+d; for an entry SP = %d (mod %d), allowed by the ABI, it is not "
-                         "aligned to final_stack_alignment()=%d (prolog performs no alignment)" % (sp_body, bad[0], max(fa, 16), fa)))
+                         "aligned to final_stack_alignment()=%d (prolog performs no alignment)" % (sp_body, bad[0], fa, fa)))
+    elif rec["promise"] and sp_body % max(fa, 1):
+        viol.append(("sp-misaligned:align%d" % fa, "SP inside the body = entry_sp%+d is not aligned to final_stack_alignment()=%d" % (sp_body, fa)))
     # --- declared areas against save slots / caller frame
     areas = []
     if rec["cs"]:
